@@ -1,6 +1,7 @@
 package main
 
 import (
+	"go/types"
 	"fmt"
 	"strings"
 
@@ -199,6 +200,25 @@ func init() {
 		}
 		return nil
 	})
+	libModels["maps.Clone"] = &libModel{doc: "nil for a nil map, otherwise a newly allocated map with the same entries",
+		run: func(x *Exec, st *State, a []Val, site ssa.Instruction) []Val {
+			c := site.(*ssa.Call)
+			mt := c.Type().Underlying().(*types.Map)
+			_, _, dn, vn, dsrt, vsrt := x.mapSorts(mt)
+			m := x.term(st, a[0], false)
+			r := st.fresh("mapref", "Int")
+			st.assume(fmt.Sprintf("(= %s (ite (= %s 0) 0 %s))", r, m, st.alloc))
+			na := st.fresh("alloc", "Int")
+			st.assume(fmt.Sprintf("(= %s (+ %s 1))", na, st.alloc))
+			st.alloc = na
+			d := st.heap(dn, dsrt)
+			v := st.heap(vn, vsrt)
+			st.setHeap(dn, dsrt, fmt.Sprintf("(store %s %s (select %s %s))", d, r, d, m))
+			st.setHeap(vn, vsrt, fmt.Sprintf("(store %s %s (select %s %s))", v, r, v, m))
+			return []Val{{S: "Int", T: r, GT: c.Type()}}
+		},
+		mods: func(x *Exec, args []Val, known []bool, m *Mods) { m.All = true }}
+	libModels["golang.org/x/exp/maps.Clone"] = libModels["maps.Clone"]
 	libModels["golang.org/x/exp/maps.Keys"] = pure("some sequence of keys", func(x *Exec, st *State, a []Val, site ssa.Instruction) []Val {
 		c := site.(*ssa.Call)
 		s := x.U().sortOf(c.Type())
